@@ -64,14 +64,25 @@ Fixpoint add_all (acc xs : list commit) : list commit :=
   | x :: xs' => add_all (if cmem x acc then acc else acc ++ [x]) xs'
   end.
 
-Definition expand (g : graph) (s : list commit) : list commit :=
-  add_all s (flat_map (parents g) s).
+(** one pass over the graph, children first: a commit that is in the set brings its parents in.  On a graph
+    that lists parents before children (every exchange case does) one pass over the reversed list already
+    reaches the fixpoint; passes are repeated until the set stops growing (at most [length g] times), so the
+    result does not depend on the listing order. *)
+Fixpoint rev_pass (g : graph) (rg : graph) (s : list commit) : list commit :=
+  match rg with
+  | [] => s
+  | (c, _) :: r => rev_pass g r (if cmem c s then add_all s (parents g c) else s)
+  end.
 
-Fixpoint iter_expand (g : graph) (n : nat) (s : list commit) : list commit :=
-  match n with O => s | S n' => iter_expand g n' (expand g s) end.
+Fixpoint close_fuel (g rg : graph) (fuel : nat) (s : list commit) : list commit :=
+  match fuel with
+  | O => s
+  | S f => let s' := rev_pass g rg s in
+           if Nat.eqb (length s') (length s) then s else close_fuel g rg f s'
+  end.
 
-(** ancestors-or-self of the commits in [s] ([length g] rounds reach the fixpoint) *)
-Definition anc_closure (g : graph) (s : list commit) : list commit := iter_expand g (length g) s.
+(** ancestors-or-self of the commits in [s] *)
+Definition anc_closure (g : graph) (s : list commit) : list commit := close_fuel g (rev g) (S (length g)) s.
 Definition anc_set (g : graph) (c : commit) : list commit := anc_closure g [c].
 
 (** executable instance of ref.IsAncestorOf(db, a, b): a is an ancestor-or-self of b *)
